@@ -127,8 +127,11 @@ impl<const K: usize> AffTree<K> {
             });
 
             // check if new points are solutions of poly
+            // a candidate with an infinite coordinate is no point: its distance to a row can be +inf
             let contained_points = zip(candidates.axis_iter(Axis(1)), distances.axis_iter(Axis(1)))
-                .filter(|(_, dist)| dist.iter().all(|val| *val >= 0.))
+                .filter(|(point, dist)| {
+                    point.iter().all(|val| val.is_finite()) && dist.iter().all(|val| *val >= 0.)
+                })
                 .map(|(point, _)| point.insert_axis(Axis(1)))
                 .collect_vec();
 
